@@ -377,6 +377,13 @@ class AssignedFeatureCounter(AbstractCounter):
                 f.write("__not_aligned\t%d\n" % self.not_aligned_reads)
                 f.write("__usable\t%d\n" % self.reads_for_tpm)
 
+    # the statistic lines that close an ungrouped counts table (a feature id may start with two underscores as well)
+    STAT_LINE_IDS = ("__ambiguous", "__no_feature", "__not_aligned", "__usable")
+
+    @staticmethod
+    def is_stat_line(line):
+        return line.split('\t', 1)[0] in AssignedFeatureCounter.STAT_LINE_IDS
+
     def dump_grouped(self, all_features, all_groups):
         output_file = self.get_output_file_handler()
         linear_output_file = self.get_linear_output_file_handler()
@@ -408,7 +415,7 @@ class AssignedFeatureCounter(AbstractCounter):
         total_counts = defaultdict(float)
         with open(self.output_counts_file_name) as f:
             for line in f:
-                if line.startswith('__'): break
+                if AssignedFeatureCounter.is_stat_line(line): break
                 if line.startswith('#'): continue
                 fs = line.rstrip().split('\t')
                 if self.ignore_read_groups:
@@ -431,7 +438,7 @@ class AssignedFeatureCounter(AbstractCounter):
         with open(self.output_tpm_file_name, "w") as outf:
             with open(self.output_counts_file_name) as f:
                 for line in f:
-                    if line.startswith('__'): break
+                    if AssignedFeatureCounter.is_stat_line(line): break
                     if line.startswith('#'):
                         # the ungrouped table has a single "count" column, the columns of a grouped table are group names
                         outf.write(line.replace("count", "TPM") if self.ignore_read_groups else line)
